@@ -56,7 +56,7 @@ TABLE = [
      [('task.waiting', True), ('task.rerun', True)]),
     (('C04', 'C01'), 'mistral.engine.task_handler.create_task', '_schedule_refresh_task_state',
      [('_build_task_from_command(wf_cmd).waiting', True), ('_build_task_from_command(wf_cmd).rerun', True)]),
-    (('C01', 'C08'), 'mistral.engine.task_handler.complete_task', 'complete',
+    (('C01', 'C08', 'C11'), 'mistral.engine.task_handler.complete_task', 'complete',
      [('task_ex', True)]),
     (('C08', 'C01'), 'mistral.engine.task_handler.continue_task', 'run',
      [('task_ex', True)]),
@@ -228,17 +228,17 @@ TABLE = [
     (('C09',), 'mistral.engine.workflows.Workflow._send_result_to_parent_workflow', 'Result',
      []),
     (('C01',), 'mistral.workflow.direct_workflow.DirectWorkflowController._find_next_tasks', 'append',
-     [('not cond or expr.evaluate(cond, ctx_view)', True)]),
+     [('not cond or expr.evaluate(cond, ctx_view)', True), ('task_ex.state == states.SUCCESS or skip_is_empty', True)]),
     (('C12',), 'mistral.workflow.base.WorkflowController.rerun_tasks', 'RunExistingTask',
      [('self._is_paused_or_completed()', False)]),
     (('C12',), 'mistral.workflow.base.WorkflowController.skip_tasks', 'SkipTask',
      [('self._is_paused_or_completed()', False)]),
     (('C08',), 'mistral.engine.policies.RetryPolicy.after_task_complete', 'schedule',
-     [("hasattr(task.task_spec, 'get_join') and task.task_spec.get_join()", False), ('retry_no < self.count', True), ('stop_continue_flag', False), ('self.count == 0', False)]),
+     [("hasattr(task.task_spec, 'get_join') and task.task_spec.get_join()", False), ('retry_no < self.count', True), ('stop_continue_flag', False), ('self.count == 0', False), ('task.get_state() == states.ERROR and break_on_evaluation', False)]),
     (('C08',), 'mistral.engine.policies.RetryPolicy.after_task_complete', '_schedule_refresh_task_state',
-     [("hasattr(task.task_spec, 'get_join')", True), ('task.task_spec.get_join()', True), ('retry_no < self.count', True), ('stop_continue_flag', False), ('self.count == 0', False)]),
+     [("hasattr(task.task_spec, 'get_join')", True), ('task.task_spec.get_join()', True), ('retry_no < self.count', True), ('stop_continue_flag', False), ('self.count == 0', False), ('task.get_state() == states.ERROR and break_on_evaluation', False)]),
     (('C08',), 'mistral.engine.policies.RetryPolicy.after_task_complete', 'set_state',
-     [("hasattr(task.task_spec, 'get_join')", True), ('task.task_spec.get_join()', True), ('retry_no < self.count', True), ('stop_continue_flag', False), ('self.count == 0', False), ("hasattr(task.task_spec, 'get_join') and task.task_spec.get_join()", False)]),
+     [("hasattr(task.task_spec, 'get_join')", True), ('task.task_spec.get_join()', True), ('retry_no < self.count', True), ('stop_continue_flag', False), ('self.count == 0', False), ("hasattr(task.task_spec, 'get_join') and task.task_spec.get_join()", False), ('task.get_state() == states.ERROR and break_on_evaluation', False)]),
     (('C08',), 'mistral.engine.policies.WaitBeforePolicy.before_task_start', 'schedule',
      [("task.get_policy_context('wait_before_policy').get('skip')", False), ('self.delay == 0', False)]),
     (('C08',), 'mistral.engine.policies.WaitAfterPolicy.after_task_complete', 'schedule',
@@ -341,6 +341,14 @@ TABLE = [
      [('isinstance(data.get(key_name, key_default), (dict, list))', True), ('isinstance(data, dict)', True), ("hasattr(spec_cls, '_polymorphic_key')", True), ('issubclass(spec_cls, BaseSpecList)', False), ("hasattr(cls, '_polymorphic_value')", False), ('concrete_spec_cls is None', True), ('isinstance(data.get(key_name, key_default), (dict, list))', False)]),
 ]
 
+# effects in front of which no state test is legitimate either: the late
+# completion of a task (by the wait-after / retry / timeout job, by a
+# refreshed join) is needed in a workflow of ANY state - a stopped workflow
+# still has to see its delayed tasks reach their final state
+STRICT = {
+    ('mistral.engine.task_handler.complete_task', 'complete'),
+}
+
 # atoms that are state tests: decided by the state-domain rules
 STATEISH = re.compile(r'\.state\b|\bstates\.|\bget_state\(\)|'
                       r'\.is_completed\(\)|^state\b|\bstate ==|'
@@ -369,9 +377,15 @@ def _paths(txt):
 def enabling_facts(cfg, f, node, all_=False):
     out = []
     for a, t in U.guard_atoms(cfg, node):
-        txt = norm(U.canon_expr(f.node, a), 200)
+        ca = U.canon_expr(f.node, a)
+        txt = norm(ca, 200)
         if STATEISH.search(txt) and not all_:
-            continue
+            # a compound fact (the negation of `A and B`, `A or B` holding)
+            # is a state test only when every operand is one: `published and
+            # state != SKIPPED` is also a condition on `published`
+            parts = ca.values if isinstance(ca, ast.BoolOp) else [ca]
+            if all(STATEISH.search(norm(p_, 200)) for p_ in parts):
+                continue
         out.append((txt, t))
     return out
 
@@ -379,7 +393,12 @@ def enabling_facts(cfg, f, node, all_=False):
 def required_effects(ctx, rule, prop):
     prog = ctx.prog
     n = 0
-    for props, fq, eff, allowed in TABLE:
+    for entry in TABLE:
+        props, fq, eff, allowed = entry[:4]
+        # STRICT entries: tests of a state count as facts too - the effect
+        # is needed whatever the state of the objects around it is (listed
+        # where the pinned tree has no state test in front of the effect)
+        strict = (fq, eff) in STRICT
         if prop not in props:
             continue
         f = prog.funcs.get(fq)
@@ -417,7 +436,7 @@ def required_effects(ctx, rule, prop):
             # what is reported is a condition on something NEW
             # ... except the plain negation of a known fact, which is the
             # opposite condition, not a respelling of it
-            facts_here = enabling_facts(cfg, f, node)
+            facts_here = enabling_facts(cfg, f, node, all_=strict)
             negated = [x for x in facts_here
                        if x not in allowed and (x[0], not x[1]) in allowed
                        and not any(y[0] == x[0] and y[1] == x[1]
